@@ -3,9 +3,12 @@
 Exact tier: problems (integer SPD G, 1-3 integer right-hand sides, l1/ridge penalties) are taken from the
 state space of NNLS.tla (exported from TLC; the uniqueness-of-the-KKT-set and optimality theorems are
 checked on every one of them in the design run).  Each problem is solved by hals_nnls (cold, warm from
-ones, warm from the solution), fista (cold, warm from ones, and with the stopping rule disabled),
-active_set_nnls (cold, warm) and admm(n_const=None); NNLSTrace.tla compares with the exact rational
-minimiser.  Measured tier: random integer problems with 4-8 unknowns; the harness logs the solution and
+ones, warm from the solution), fista (cold, several warm starts, and with the stopping rule disabled),
+active_set_nnls (cold and six kinds of warm start) and admm(n_const=None); NNLSTrace.tla compares with the
+exact rational minimiser.  Warm starts (any non-negative array is a legal start): all-ones, all-positive at
+two other scales, random non-negative with partial support (two draws), the solution of a DIFFERENT problem
+with the same G.  The cheap solvers (active set, fista) get an additional batch of penalty-free problems on
+signed Gram matrices so that start-dependent defects of ~10% incidence are caught in the quick tier.  Measured tier: random integer problems with 4-8 unknowns; the harness logs the solution and
 the gradient, the spec judges the KKT conditions.
 """
 import itertools
@@ -19,8 +22,32 @@ from ..common import execute_cases, qs
 S = 10**6
 HALS_CAP = 2000          # sweeps when not in exact=True mode (the solver's own stopping rule never fires, see report)
 FISTA_CAP = 5000
-VARIANTS = [("hals", "cold"), ("hals", "ones"), ("hals", "exact"), ("fista", "cold"), ("fista", "ones"), ("fista", "tol0"),
-            ("active_set", "cold"), ("active_set", "ones"), ("admm", "none")]
+VARIANTS = [("hals", "cold"), ("hals", "ones"), ("hals", "exact"),
+            ("fista", "cold"), ("fista", "ones"), ("fista", "tol0"), ("fista", "partial_a"), ("fista", "other"),
+            ("active_set", "cold"), ("active_set", "ones"), ("active_set", "pos_small"), ("active_set", "pos_big"),
+            ("active_set", "partial_a"), ("active_set", "partial_b"), ("active_set", "other"), ("admm", "none")]
+# variants run on the extra batch of penalty-free problems reserved for the cheap solvers
+CHEAP_VARIANTS = [("active_set", v) for v in ("cold", "ones", "pos_small", "pos_big", "partial_a", "partial_b", "other")] + \
+                 [("fista", "partial_b"), ("fista", "pos_big")]
+WARM = ("ones", "pos_small", "pos_big", "partial_a", "partial_b", "other")
+
+
+def make_start(variant, rng, n, k, other):
+    """a legal (non-negative) warm start as k columns of n floats; `other` = solution-like array of another problem."""
+    if variant == "ones":
+        X = np.ones((n, k))
+    elif variant == "pos_small":
+        X = 0.01 * (1 + np.arange(n * k).reshape(n, k) % 3)
+    elif variant == "pos_big":
+        X = 5.0 * (1 + np.array([[rng.random() for _ in range(k)] for _ in range(n)]))
+    elif variant in ("partial_a", "partial_b"):
+        keep = 0.75 if variant == "partial_a" else 0.5
+        X = np.array([[(rng.random() * 2 if rng.random() < keep else 0.0) for _ in range(k)] for _ in range(n)])
+    elif variant == "other":
+        X = np.asarray(other, dtype=np.float64)
+    else:
+        raise ValueError(variant)
+    return [[round(float(v), 6) for v in X[:, j]] for j in range(k)]
 
 
 def _reference(G, B, l1, l2):
@@ -61,14 +88,15 @@ def solve(case, G, B):
         kw = dict(exact=True) if case["mode"] == "exact" else dict(n_iter_max=case.get("cap", HALS_CAP), tol=1e-16)
         return hals_nnls(B.copy(), G.copy(), V=V, sparsity_coefficient=(l1 if case["p1"] else None),
                          ridge_coefficient=(l2 if case["p2"] else None), **kw)
+    start = None if case.get("start") is None else np.array(case["start"], dtype=np.float64).T      # n x k
     if solver == "fista":
-        x0 = np.ones((n, k)) if variant == "ones" else None
+        x0 = start
         tol = 0.0 if variant == "tol0" else 1e-16
         return fista(B.copy(), G.copy(), x=x0, sparsity_coef=l1, ridge_coef=l2, tol=tol, n_iter_max=case.get("cap", FISTA_CAP))
     if solver == "active_set":
         cols = []
         for j in range(k):
-            x0 = np.ones(n) if variant == "ones" else None
+            x0 = None if start is None else start[:, j].copy()
             cols.append(np.asarray(active_set_nnls(B[:, j].copy(), G.copy(), x=x0, tol=1e-16, n_iter_max=100)).reshape(n))
         return np.stack(cols, axis=1)
     if solver == "admm":
@@ -156,35 +184,68 @@ def build_cases(chk, cfgs, thorough):
             problems.append((G, p1, p2, q_, cols))
     cases = []
     n_exact_mode = 0
-    for pi, (G, p1, p2, q_, cols) in enumerate(problems):
+
+    def other_solution(G, p1, p2, q_, cols):
+        """solution of a DIFFERENT problem with the same G (right-hand sides negated and rotated, or b = diag(G))."""
         Gf = np.array(G, dtype=np.float64)
+        n = len(G)
+        alt = [[-c[(i + 1) % n] if any(c) else G[i][i] for i in range(n)] for c in cols]
+        return _reference(Gf, np.array(alt, dtype=np.float64).T, p1 / q_, p2 / q_)
+
+    def add_exact(G, p1, p2, q_, cols, variants, exact_mode, batch):
+        nonlocal n_exact_mode
+        Gf = np.array(G, dtype=np.float64)
+        n, k = len(G), len(cols)
         ls = np.linalg.solve(Gf, np.array(cols, dtype=np.float64).T)
-        flags = {"ls_nonpos": bool(np.all(ls <= 0))}
-        exact_mode = (pi % (97 if thorough else 23) == 0)
-        for solver, variant in VARIANTS:
+        flags = {"ls_nonpos": bool(np.all(ls <= 0)), "batch": batch,
+                 "signed": any(G[i][j] < 0 for i in range(n) for j in range(n))}
+        other = None
+        for solver, variant in variants:
             if solver in ("active_set", "admm") and (p1 or p2):
                 continue
             mode = "exact" if (solver == "hals" and exact_mode) else "cap"
             n_exact_mode += mode == "exact"
+            start = None
+            if solver != "hals" and variant in WARM:
+                if variant == "other" and other is None:
+                    other = other_solution(G, p1, p2, q_, cols)
+                start = make_start(variant, rng, n, k, other)
             cases.append({"id": "C13/%s-%s/%06d" % (solver, variant, len(cases)), "kind": "exact", "solver": solver, "variant": variant,
-                          "mode": mode, "G": [list(r) for r in G], "B": cols, "p1": p1, "p2": p2, "q": q_, "flags": flags})
+                          "mode": mode, "G": [list(r) for r in G], "B": cols, "p1": p1, "p2": p2, "q": q_, "start": start,
+                          "flags": flags})
+
+    for pi, (G, p1, p2, q_, cols) in enumerate(problems):
+        add_exact(G, p1, p2, q_, cols, VARIANTS, pi % (97 if thorough else 23) == 0, "main")
+    # extra batch for the cheap solvers: penalty-free problems on Gram matrices with a negative off-diagonal entry
+    # ("signed designs"), 2-3 unknowns, 2-3 right-hand sides each
+    signed_groups = [key for key in sorted(groups) if key[1] == 0 and key[2] == 0 and len(key[0]) >= 2
+                     and any(v < 0 for row in key[0] for v in row)]
+    for t in range(700 if thorough else 170):
+        G, p1, p2, q_ = rng.choice(signed_groups)
+        add_exact(G, p1, p2, q_, rng.sample(sorted(groups[(G, p1, p2, q_)]), rng.choice((2, 3))), CHEAP_VARIANTS, False, "cheap")
     n_exact = len(cases)
     # measured tier
     pens = [(0, 0, 1), (1, 0, 2), (0, 1, 2), (2, 1, 2)]
-    for t in range(160 if thorough else 8):
-        n, k = rng.randint(4, 8), rng.randint(1, 5)
-        p1, p2, q_ = pens[t % 4]
+    n_full = 160 if thorough else 8
+    n_cheap = 240 if thorough else 48
+    for t in range(n_full + n_cheap):
+        cheap = t >= n_full
+        n, k = rng.randint(4, 8), (rng.randint(1, 3) if cheap else rng.randint(1, 5))
+        p1, p2, q_ = (0, 0, 1) if cheap else pens[t % 4]
         gs = rng.randrange(2**31)
         Gm, Bm, _ = gen_problem({"gen_seed": gs, "n": n, "k": k, "cond_max": 60.0})
-        kflags = {"ls_nonpos": bool(np.all(np.linalg.solve(Gm, Bm) <= 0))}
-        for solver, variant in VARIANTS:
+        kflags = {"ls_nonpos": bool(np.all(np.linalg.solve(Gm, Bm) <= 0)), "batch": "cheap" if cheap else "main", "signed": True}
+        # solution-like start of another problem: clipped least-squares solution for the reversed, negated right-hand sides
+        other = np.clip(np.linalg.solve(Gm, -Bm[::-1, :]), 0, None)
+        for solver, variant in (CHEAP_VARIANTS if cheap else VARIANTS):
             if solver in ("active_set", "admm") and (p1 or p2):
                 continue
             if variant == "exact":
                 continue           # no exact reference beyond 3 unknowns
+            start = make_start(variant, rng, n, k, other) if (solver != "hals" and variant in WARM) else None
             cases.append({"id": "C13/kkt-%s-%s/%06d" % (solver, variant, len(cases)), "kind": "kkt", "solver": solver, "variant": variant,
                           "mode": "cap", "cap": 6000, "n": n, "k": k, "p1": p1, "p2": p2, "q": q_, "gen_seed": gs, "cond_max": 60.0,
-                          "flags": kflags})
+                          "start": start, "flags": kflags})
     return cases, len(problems), nprob_domain, n_exact, n_exact_mode
 
 
@@ -205,7 +266,8 @@ def run(chk, opts):
         events[i] = e
     chk.rule = ("%d problems (G, 1-3 right-hand sides, l1/ridge penalty) drawn with seed %d from the %d single-rhs problems of NNLS.tla's "
                 "state space (all of them are model-checked), each through hals (cold/ones/solution; %d runs with exact=True, others "
-                "n_iter_max=%d, tol=1e-16), fista (cold/ones tol=1e-16; tol=0), active_set (cold/ones), admm(n_const=None): %d exact events; "
+                "n_iter_max=%d, tol=1e-16), fista (cold + warm starts tol=1e-16; tol=0), active_set (cold + 6 warm starts), admm(n_const=None), "
+                "plus a batch of penalty-free signed-Gram problems for active_set/fista warm starts: %d exact events; "
                 "+ %d measured-tier events (4-8 unknowns, KKT residuals); distinct = distinct (problem, solver, start)"
                 % (nprob, chk.seed, ndomain, n_exact_mode, HALS_CAP, n_exact, len(cases) - n_exact))
     for c in cases:
@@ -228,6 +290,7 @@ def run(chk, opts):
         "NumPy backend only",
         "exact tier: integer SPD Gram matrices with 1-3 unknowns (cond <= 34, plus the [[19,9],[9,19]] reproducer), integer right-hand sides",
         "solutions compared at 1e-5 (SolTol) with the exact rational minimiser; measured tier judged by KKT residuals <= 5e-5 (cond <= 60)",
+        "warm starts: ones, two other all-positive scales, two random partial-support draws, the solution of a different problem (active set: all; fista: a subset; hals: ones and the solution)",
         "hals_nnls is run with n_iter_max=2000/6000, tol=1e-16 except for a subset with exact=True (its stopping rule never fires: every run goes to the cap)",
         "the 'warm from the solution' start is built by the harness with numpy (input construction only)",
     ]
